@@ -152,9 +152,19 @@ class Explorer:
         self.frontier_depth = None     # split mode: stop runs at this many decisions and collect their prefixes
         self.frontier = []
 
-    def run_all(self, harness, on_path=None):
-        """harness(ex) runs one path; returns when the worklist is empty."""
+    def run_all(self, harness, on_path=None, limit=None, shortest_first=False, until_work=None):
+        """harness(ex) runs one path; returns when the worklist is empty (or after `limit` runs / once the
+        worklist holds `until_work` prefixes, for seeding parallel workers)."""
+        nruns = 0
         while self.work:
+            if limit is not None and nruns >= limit:
+                break
+            if until_work is not None and len(self.work) >= until_work and nruns > 0:
+                break
+            nruns += 1
+            if shortest_first:
+                i = min(range(len(self.work)), key=lambda j: len(self.work[j]))
+                self.work.append(self.work.pop(i))
             if self.stats.paths >= self.max_paths:
                 self.inconclusive.append('path budget %d exhausted' % self.max_paths)
                 break
@@ -444,7 +454,7 @@ class Executor:
                 if 'overflow' in msg:
                     # dev profile panics, release profile wraps: explore the release behaviour, remember the site
                     if ok is not True:
-                        if self.branch(ok, 'overflow') is False:
+                        if ok is False or self.branch(ok, 'overflow') is False:
                             self.note('overflow', '%s %s: %s' % (f.name, bb, msg))
                             self.E.stats.overflow_sites.add('%s %s' % (f.name, bb))
                             self.env.setdefault('overflowed', []).append('%s %s' % (f.name, bb))
@@ -525,7 +535,7 @@ class Executor:
                             v.fields.extend([UNINIT] * (idx + 1 - len(v.fields)))
                         c, k = v.fields, idx
                 elif hasattr(v, 'mir_field'):
-                    c, k = v.mir_field(idx)
+                    c, k = v.mir_field(idx, pr[2])
                 elif v is UNINIT:
                     # field-wise initialisation of a fresh aggregate
                     nv = Agg(self_ty_of(fr, place), None, [])
@@ -769,17 +779,29 @@ class Executor:
             if op[0] == 'M' and is_sym(a) and is_sym(b):
                 raise Unsupported('symbolic * symbolic')
             exact = a + b if op[0] == 'A' else a - b if op[0] == 'S' else a * b
-            if ty in INT_BITS:
-                ovf = b_not(in_range(exact, ty))
-                res = wrap(exact, ty) if (is_sym(ovf) or ovf) else exact
-            else:
+            if ty not in INT_BITS:
                 raise Unsupported('overflow op on type %r' % ty)
-            return Agg('tuple', None, [res, ovf])
+            if is_sym(exact):
+                exact = z3.simplify(exact)
+                if z3.is_int_value(exact):
+                    exact = exact.as_long()
+            # decide overflow now (fork), so that the common no-overflow world carries the exact term without `mod`
+            if self.branch(in_range(exact, ty), 'overflow?'):
+                return Agg('tuple', None, [exact, False])
+            return Agg('tuple', None, [wrap(exact, ty), True])
         if op in ('Add', 'Sub', 'Mul', 'AddUnchecked', 'SubUnchecked', 'MulUnchecked'):
             if op.startswith('Mul') and is_sym(a) and is_sym(b):
                 raise Unsupported('symbolic * symbolic')
             exact = a + b if op[0] == 'A' else a - b if op[0] == 'S' else a * b
-            return wrap(exact, ty) if ty in INT_BITS else exact
+            if is_sym(exact):
+                exact = z3.simplify(exact)
+                if z3.is_int_value(exact):
+                    exact = exact.as_long()
+            if ty in INT_BITS and (is_sym(exact) or not in_range(exact, ty)):
+                if is_sym(exact) and self.branch(in_range(exact, ty), 'wraps?'):
+                    return exact
+                return wrap(exact, ty)
+            return exact
         if op in ('Div', 'Rem'):
             if is_sym(b):
                 raise Unsupported('symbolic divisor')
@@ -1175,48 +1197,69 @@ _PAR = {}
 
 
 def _par_worker(args):
-    key, prefixes, kw = args
+    key, prefixes, kw, limit = args
     make = _PAR[key]
     harness, on_path, res = make()
     E = Explorer(_PAR[key + ':prog'], Stats(), **kw)
     E.work = [list(p) for p in prefixes]
     try:
-        E.run_all(harness, on_path)
+        E.run_all(harness, on_path, limit=limit)
     except Exception as e:
         E.inconclusive.append('worker failure: %r' % (e,))
-    return res, E.stats.as_dict(), E.stats.functions, E.stats.models_used, E.inconclusive[:5]
+        E.work = []
+    return res, E.stats.as_dict(), E.stats.functions, E.stats.models_used, E.inconclusive[:5], E.work
 
 
 def parallel_explore(prog, make, depth=6, procs=16, deadline=None, **kw):
     """make() -> (harness, on_path, res) with res a picklable dict of lists/ints that on_path fills.
-    Returns (merged res, stats dict, functions, models, inconclusive)."""
+    The parent seeds a worklist, then a process pool explores prefixes in slices of at most `slice_runs` runs and
+    hands unfinished prefixes back (dynamic load balancing).  Returns (merged res, stats, functions, models, inconclusive)."""
     import multiprocessing as mp
+    import collections
     key = 'k%d' % len(_PAR)
     _PAR[key] = make
     _PAR[key + ':prog'] = prog
     harness, on_path, res = make()
     E0 = Explorer(prog, Stats(), deadline=deadline, **kw)
-    E0.frontier_depth = depth
-    E0.run_all(harness, on_path)
+    E0.run_all(harness, on_path, limit=procs * 2, shortest_first=True, until_work=procs * 4)
     stats = E0.stats.as_dict()
     functions, models_used, inconclusive = set(E0.stats.functions), set(E0.stats.models_used), list(E0.inconclusive)
-    frontier = E0.frontier
-    if frontier:
-        chunks = [frontier[i::procs * 4] for i in range(procs * 4)]
-        chunks = [c for c in chunks if c]
-        kw2 = dict(kw)
-        kw2['deadline'] = deadline
+    kw2 = dict(kw)
+    kw2['deadline'] = deadline
+    slice_runs = 12
+
+    def merge(r, st, fns, mods, inc):
+        for k, v in r.items():
+            if isinstance(v, list):
+                res.setdefault(k, []).extend(v)
+            elif isinstance(v, (int, float)):
+                res[k] = res.get(k, 0) + v
+        for k, v in st.items():
+            stats[k] = stats.get(k, 0) + v
+        functions.update(fns)
+        models_used.update(mods)
+        inconclusive.extend(inc)
+
+    pending = collections.deque(sorted(E0.work, key=len))
+    if pending and not inconclusive:
         ctx = mp.get_context('fork')
-        with ctx.Pool(min(procs, len(chunks))) as pool:
-            for r, st, fns, mods, inc in pool.imap_unordered(_par_worker, [(key, c, kw2) for c in chunks]):
-                for k, v in r.items():
-                    if isinstance(v, list):
-                        res.setdefault(k, []).extend(v)
-                    elif isinstance(v, (int, float)):
-                        res[k] = res.get(k, 0) + v
-                for k, v in st.items():
-                    stats[k] = stats.get(k, 0) + v
-                functions |= fns
-                models_used |= mods
-                inconclusive += inc
+        with ctx.Pool(procs) as pool:
+            inflight = []
+            while pending or inflight:
+                while pending and len(inflight) < procs * 2:
+                    # several small items per task when there are many
+                    n = max(1, min(4, len(pending) // (procs * 2)))
+                    batch = [pending.popleft() for _ in range(min(n, len(pending)))]
+                    inflight.append(pool.apply_async(_par_worker, ((key, batch, kw2, slice_runs),)))
+                done = [x for x in inflight if x.ready()]
+                if not done:
+                    inflight[0].wait(0.05)
+                    continue
+                for x in done:
+                    inflight.remove(x)
+                    r, st, fns, mods, inc, left = x.get()
+                    merge(r, st, fns, mods, inc)
+                    pending.extend(left)
+                if inconclusive and any('budget' in i_ for i_ in inconclusive):
+                    break
     return res, stats, functions, models_used, inconclusive
